@@ -326,6 +326,10 @@ func dictIs(hm *value.HashMap, model []pair) bool {
 func H_Dict() {
 	model, hm := mkDict()
 	zv.Assert(dictIs(hm, model), "construction: first occurrence fixes the place, last value wins")
+	// from here on every `range` over a Go map runs in an order chosen by the
+	// engine: insertion order must not be derived from Go's map order
+	zv.SetMapOrder(1)
+	defer zv.SetMapOrder(0)
 	k := keyPool[zv.Choose(len(keyPool))]
 	x := zv.Float64("x")
 	switch zv.Choose(7) {
